@@ -68,6 +68,14 @@ def scenarios(tier):
     w.add_file("r/b", _c(15, 70000))
     w.add_dir("T")
     sc.append({"name": "seconddev-small", "world": w.to_json(), "roots": ["r"], "gargs": [], "dev2": "T", "ops": ["move"]})
+    # S3b a symbolic link as a DROPPED member (-S; its target lies outside the scanned tree, so link and the regular
+    # copy are two replicas): replacing a link must be as safe as replacing a file
+    w = World()
+    w.add_file("r/a", _c(16))
+    w.add_file("o/x", _c(16))
+    w.add_symlink("r/z/s", "../../o/x")
+    w.add_dir("T")
+    sc.append({"name": "symlink-dropped", "world": w.to_json(), "roots": ["r"], "gargs": ["-S"], "ops": ["link", "softlink", "remove"]})
     if tier == "thorough":
         # S4 symlink members reported with -S
         w = World()
@@ -201,9 +209,13 @@ def _fully_processed(op, rel, orig, before, after, rd, dropset_info):
         return a is None and t is not None and t.type == orig.type and (
             (t.type == "f" and t.sha == orig.sha) or (t.type == "l"))
     if op == "link":
+        if orig.type == "l":        # a symbolic link listed as a member (-S) becomes a hard link of the retained file
+            return a is not None and a.type == "f" and a.nlink >= 2
         return a is not None and a.type == "f" and a.ident != orig.ident and a.sha == orig.sha and a.nlink >= 2
     if op == "softlink":
-        return a is not None and a.type == "l" and orig.type != "l"
+        if orig.type == "l":        # ... or a link to the retained file instead of its former target
+            return a is not None and a.type == "l" and a.target != orig.target
+        return a is not None and a.type == "l"
     if op == "dedupe":
         return None  # invisible to an inventory; decided from the trace
     return False
@@ -275,7 +287,7 @@ def run_case(case):
             # exist before (the 24-character suffix fclones uses today is not part of the property)
             d_ = os.path.dirname(p)
             temps = [t for t in after if t not in before and os.path.dirname(t) == d_ and t != p]
-            temp_ok = [t for t in temps if after[t].type == "f" and read_through(rd.world, t) == b]
+            temp_ok = [t for t in temps if after[t].type in ("f", "l") and read_through(rd.world, t) == b]
             at_orig = now is not None and now == b
             gone_ok = False
             if op == "remove":
